@@ -264,3 +264,18 @@ func TestD16_NextAbsentValueArrayEdge(t *testing.T) {
 		t.Fatalf("NextAbsentValue(65534) = %d, want 65536", got)
 	}
 }
+
+// #18 C09/C16: AddOffset of a bitmap chunk must not leave bitmap containers with <= 4096 values.
+func TestD18_AddOffsetBitmapSplit(t *testing.T) {
+	b := roaring.New()
+	for i := uint32(0); i < 65536; i += 13 { // 5042 values: a bitmap container
+		b.Add(i)
+	}
+	r := roaring.AddOffset64(b, 30000)
+	if err := r.Validate(); err != nil {
+		t.Fatalf("AddOffset64 result does not validate: %v", err)
+	}
+	if _, err := r.ToBytes(); err != nil {
+		t.Fatalf("AddOffset64 result cannot be serialized: %v", err)
+	}
+}
